@@ -18,6 +18,12 @@ Proof.
   cbn [map]. rewrite (IH Ht). unfold is_u32 in Hx. rewrite u32_small by lia. reflexivity.
 Qed.
 
+Lemma update_stco_id l : forallb is_u32 l = true -> update_stco l = Ok l.
+Proof.
+  induction l as [|x t IH]; intros H; [reflexivity|]. cbn [forallb] in H. apply andb_prop in H. destruct H as [Hx Ht].
+  cbn [update_stco]. unfold is_u32 in Hx. destruct (4294967295 <? x) eqn:E; [lia|]. rewrite (IH Ht). reflexivity.
+Qed.
+
 Lemma crop_tables_consistent tb : consistent tb = true -> forall k offs, 1 <= k <= nsamples tb ->
   new_offsets_ok tb k offs = true ->
   exists tb', crop_tables tb k offs = Ok tb' /\ consistent tb' = true /\ nsamples tb' = k /\
@@ -48,7 +54,11 @@ Proof.
   { destruct (t_ctts tb) as [c|] eqn:Ec; [|exists None; split; [reflexivity|exact I]].
     destruct (ctts_crop_correct tb c H Ec k Hk) as [c' [Hc' Hrest]]. exists (Some c'). rewrite Hc'. split; [reflexivity|exact Hrest]. }
   destruct Hctts as [ct' [Hct1 Hct2]].
+  assert (Hso : match t_stco tb with Some _ => do l <- update_stco offs; Ok (Some l) | None => Ok None end
+                = Ok (match t_stco tb with Some _ => Some offs | None => None end)).
+  { destruct (t_stco tb); [rewrite (update_stco_id _ Hno32); reflexivity|reflexivity]. }
   unfold crop_tables. rewrite Hcs. cbn [rbind]. rewrite Hct1. cbn [rbind]. rewrite Hb. cbn [rbind]. rewrite Hz. cbn [rbind fst snd].
+  rewrite Hso. cbn [rbind].
   eexists. split; [reflexivity|].
   set (tb' := mkTables cs' ds' ct' b' z' _ _ _ _).
   assert (Hsizes : sizes tb' = firstnN (sizes tb) k) by exact Hzs.
@@ -57,7 +67,7 @@ Proof.
   { unfold nsamples. rewrite Hsizes. apply lenN_firstnN. unfold nsamples in Hk. lia. }
   assert (Hoffs : offsets tb' = offs).
   { unfold offsets, tb'. cbn [t_stco t_co64]. unfold offsets_ok in Hof.
-    destruct (t_stco tb) as [l|]; [unfold update_stco; apply map_u32_id; exact Hno32|].
+    destruct (t_stco tb) as [l|]; [reflexivity|].
     destruct (t_co64 tb) as [l|]; [reflexivity|]. discriminate. }
   assert (HC' : nchunks tb' = C') by (unfold nchunks; rewrite Hoffs; lia).
   assert (Hcounts' : counts_of tb' = chunk_counts (sc_entries b') C') by (unfold counts_of; rewrite HC'; reflexivity).
@@ -87,7 +97,7 @@ Proof.
       unfold offsets_ok. rewrite HC', Hoffs, Hsizes, Hnob.
       unfold tb'. cbn [t_stco t_co64]. unfold offsets_ok in Hof.
       destruct (t_stco tb) as [l|].
-      - unfold update_stco. rewrite (map_u32_id _ Hno32), Hno32. cbn [andb]. unfold is_u32. lia.
+      - rewrite Hno32. cbn [andb]. unfold is_u32. lia.
       - destruct (t_co64 tb) as [l|]; [|discriminate]. cbn [andb]. unfold is_u32. lia. }
     assert (G7 : stss_ok tb' = true).
     { unfold stss_ok in *. cbn [t_stss tb']. destruct (t_stss tb) as [l|]; [|reflexivity].
